@@ -169,7 +169,13 @@ impl Tok {
 #[derive(Clone, Debug, PartialEq, Eq, Hash, Serialize, Deserialize)]
 pub enum Alt {
     /// `lo - hi`; `lo == None` is the loose lower-less form ` - hi`
-    Hyphen { lo: Option<Partial>, hi: Partial },
+    Hyphen {
+        lo: Option<Partial>,
+        hi: Partial,
+        /// extra blanks (beyond the mandatory one) before / after the '-'
+        #[serde(default)]
+        pad: (u8, u8),
+    },
     /// 0..n tokens joined by blanks; `seps[i]` separates token i and i+1
     Simples { toks: Vec<Tok>, seps: Vec<String> },
 }
@@ -177,7 +183,13 @@ pub enum Alt {
 impl Alt {
     pub fn render(&self) -> String {
         match self {
-            Alt::Hyphen { lo, hi } => format!("{} - {}", lo.as_ref().map(|p| p.render()).unwrap_or_default(), hi.render()),
+            Alt::Hyphen { lo, hi, pad } => format!(
+                "{}{} -{} {}",
+                lo.as_ref().map(|p| p.render()).unwrap_or_default(),
+                " ".repeat(pad.0 as usize),
+                " ".repeat(pad.1 as usize),
+                hi.render()
+            ),
             Alt::Simples { toks, seps } => {
                 let mut s = String::new();
                 for (i, t) in toks.iter().enumerate() {
@@ -192,7 +204,7 @@ impl Alt {
     }
     pub fn partials(&self) -> Vec<(&Partial, Option<Op>)> {
         match self {
-            Alt::Hyphen { lo, hi } => {
+            Alt::Hyphen { lo, hi, .. } => {
                 let mut v = vec![];
                 if let Some(l) = lo {
                     v.push((l, None));
@@ -216,11 +228,16 @@ pub struct RangeAst {
     pub alts: Vec<Alt>,
     /// blanks (left, right) around each `||`
     pub ors: Vec<(u8, u8)>,
+    /// blanks before / after the whole text (npm trims them)
+    #[serde(default)]
+    pub lead: String,
+    #[serde(default)]
+    pub trail: String,
 }
 
 impl RangeAst {
     pub fn render(&self) -> String {
-        let mut s = String::new();
+        let mut s = self.lead.clone();
         for (i, a) in self.alts.iter().enumerate() {
             if i > 0 {
                 let (l, r) = self.ors.get(i - 1).copied().unwrap_or((1, 1));
@@ -230,10 +247,14 @@ impl RangeAst {
             }
             s.push_str(&a.render());
         }
+        s.push_str(&self.trail);
         s
     }
     pub fn single(alt: Alt) -> RangeAst {
-        RangeAst { alts: vec![alt], ors: vec![] }
+        RangeAst { alts: vec![alt], ors: vec![], lead: String::new(), trail: String::new() }
+    }
+    pub fn of(alts: Vec<Alt>, ors: Vec<(u8, u8)>) -> RangeAst {
+        RangeAst { alts, ors, lead: String::new(), trail: String::new() }
     }
 
     // ---- construct classes that belong to listed findings (DESIGN 5.2) ----
@@ -302,6 +323,11 @@ pub struct GenCfg {
     pub allow_hyphen: bool,
     /// mostly one token per alternative (sides that must parse on their own)
     pub few_toks: bool,
+    /// also draw prerelease identifier lists from the version generator (long lists, long identifiers,
+    /// numbers up to u64::MAX); off for golden generation (node loses precision above 2^53)
+    pub random_pre: bool,
+    /// now and then a qualifier long enough to bring the comparator to 255/256 bytes
+    pub long_qualifier: bool,
 }
 
 impl GenCfg {
@@ -318,13 +344,33 @@ impl GenCfg {
             max_toks: 3,
             allow_hyphen: true,
             few_toks: false,
+            random_pre: true,
+            long_qualifier: true,
         }
     }
 }
 
 pub fn pool_strategy() -> BoxedStrategy<Vec<u64>> {
     let m = max_int();
-    proptest::sample::subsequence(vec![0u64, 1, 2, 3, 10, 11, m - 1, m], 2..=3).prop_shuffle().boxed()
+    // small numbers and the limits dominate (collisions are the point); the rest of the number line
+    // (two-digit values, powers of two and their neighbours, uniform u64 <= MAX) takes part too
+    let mid = select(vec![4u64, 5, 7, 9, 12, 20, 42, 64, 99, 100, 127, 128, 255, 256, 1000, 65535, 65536, (1 << 31) - 1, 1 << 31, 1 << 32, (1 << 32) + 1, 1 << 53, (1 << 53) + 1]);
+    let extra = prop_oneof![3 => mid.boxed(), 1 => (0..=m).boxed(), 1 => (0..200u64).boxed(), 2 => crate::gen::version::log_uniform(), 1 => crate::gen::version::bit_boundary()];
+    (proptest::sample::subsequence(vec![0u64, 1, 2, 3, 10, 11, m - 1, m], 2..=3).prop_shuffle(), proptest::collection::vec(extra, 0..=2), 0u8..4)
+        .prop_map(|(mut base, extra, k)| {
+            // one case in four mixes in one or two numbers from the wider pool, possibly with neighbours
+            if k == 0 {
+                for e in extra {
+                    base.push(e);
+                    if e % 2 == 0 {
+                        base.push(e + 1);
+                    }
+                }
+            }
+            base.retain(|x| *x <= max_int());
+            base
+        })
+        .boxed()
 }
 
 fn comp_num(pool: Vec<u64>, zero_zero: bool) -> BoxedStrategy<Comp> {
@@ -339,6 +385,14 @@ fn wild() -> BoxedStrategy<Comp> {
 
 pub fn pre_ids() -> BoxedStrategy<Vec<String>> {
     select(PRE_POOL.to_vec()).prop_map(|p| p.iter().map(|s| s.to_string()).collect()).boxed()
+}
+
+pub fn pre_ids_wide() -> BoxedStrategy<Vec<String>> {
+    prop_oneof![
+        5 => pre_ids(),
+        1 => crate::gen::version::nonempty_ident_list().prop_map(|l| l.iter().map(|i| i.text()).collect()),
+    ]
+    .boxed()
 }
 
 pub fn partial(cfg: &GenCfg, under_op: bool) -> BoxedStrategy<Partial> {
@@ -383,15 +437,27 @@ pub fn partial(cfg: &GenCfg, under_op: bool) -> BoxedStrategy<Partial> {
     });
     (
         comps,
-        prop_oneof![(10 - prew.min(9)) => Just(vec![]), prew => pre_ids()],
+        prop_oneof![(10 - prew.min(9)) => Just(vec![]), prew => if cfg.random_pre { pre_ids_wide() } else { pre_ids() }],
         prop_oneof![7 => Just(vec![]), 1 => select(vec![vec!["b".to_string()], vec!["1".to_string()], vec!["b".to_string(), "2".to_string()], vec!["-".to_string()]])],
         prop_oneof![4 => Just(false), 1 => Just(true)],
         prop_oneof![11 => Just(false), 1 => Just(true)],
+        if cfg.long_qualifier { prop_oneof![40 => Just(0usize), 1 => Just(255usize), 1 => Just(256usize)].boxed() } else { Just(0usize).boxed() },
     )
-        .prop_map(move |(comps, pre, build, hyphenless, v)| {
+        .prop_map(move |(comps, pre, build, hyphenless, v, long)| {
             let wildc = comps.iter().any(|c| c.is_wild());
             let qual_ok = comps.len() == 3 && (!wildc || misplaced);
-            Partial { v, comps, pre: if qual_ok { pre } else { vec![] }, build: if qual_ok { build } else { vec![] }, hyphenless }
+            let mut p = Partial { v, comps, pre: if qual_ok { pre } else { vec![] }, build: if qual_ok { build } else { vec![] }, hyphenless };
+            if long > 0 && qual_ok && !wildc {
+                // a single alphabetic prerelease identifier sized so that the written comparator
+                // version is exactly `long` bytes (the printed form is one byte longer when hyphenless)
+                p.pre = vec!["a".to_string()];
+                p.build = vec![];
+                let base = p.render().len();
+                if long > base {
+                    p.pre = vec![format!("a{}", "b".repeat(long - base))];
+                }
+            }
+            p
         })
         .boxed()
 }
@@ -438,15 +504,22 @@ pub fn simples(cfg: &GenCfg) -> BoxedStrategy<Alt> {
     } else {
         (1usize..=mx).boxed()
     };
-    size.prop_flat_map(move |n| (proptest::collection::vec(tok(&c), n), proptest::collection::vec(sep(), n.saturating_sub(1))))
-        .prop_map(|(toks, seps)| Alt::Simples { toks, seps })
+    size.prop_flat_map(move |n| (proptest::collection::vec(tok(&c), n), proptest::collection::vec(sep(), n.saturating_sub(1)), 0u8..12))
+        .prop_map(|(mut toks, mut seps, dup)| {
+            // now and then the same comparator twice
+            if dup == 0 && !toks.is_empty() && toks.len() < 4 {
+                toks.push(toks[0].clone());
+                seps.push(" ".to_string());
+            }
+            Alt::Simples { toks, seps }
+        })
         .boxed()
 }
 
 pub fn hyphen(cfg: &GenCfg) -> BoxedStrategy<Alt> {
     let lowerless = cfg.allow_lowerless_hyphen;
-    (partial(cfg, true), partial(cfg, true), 0u8..10)
-        .prop_map(move |(lo, hi, k)| Alt::Hyphen { lo: if lowerless && k == 0 { None } else { Some(lo) }, hi })
+    (partial(cfg, true), partial(cfg, true), 0u8..10, prop_oneof![4 => Just((0u8, 0u8)), 1 => (0u8..3, 0u8..3)])
+        .prop_map(move |(lo, hi, k, pad)| Alt::Hyphen { lo: if lowerless && k == 0 { None } else { Some(lo) }, hi, pad })
         .boxed()
 }
 
@@ -465,8 +538,18 @@ pub fn range_ast_with(cfg: GenCfg) -> BoxedStrategy<RangeAst> {
     } else {
         prop_oneof![3 => Just(1usize), 2 => 2usize..=mx].boxed()
     };
-    n.prop_flat_map(move |n| (proptest::collection::vec(alt(&cfg), n), proptest::collection::vec((0u8..3, 0u8..3), n.saturating_sub(1))))
-        .prop_map(|(alts, ors)| RangeAst { alts, ors })
+    let blanks = || prop_oneof![6 => Just(""), 1 => Just(" "), 1 => Just("  "), 1 => Just("\t")];
+    n.prop_flat_map(move |n| (proptest::collection::vec(alt(&cfg), n), proptest::collection::vec((0u8..3, 0u8..3), n.saturating_sub(1)), 0u8..12))
+        .prop_map(move |(mut alts, mut ors, dup)| {
+            // now and then the same alternative twice
+            if dup == 0 && alts.len() < 4 && mx > 1 {
+                alts.push(alts[0].clone());
+                ors.push((1, 1));
+            }
+            (alts, ors)
+        })
+        .prop_flat_map(move |(alts, ors)| (Just(alts), Just(ors), blanks(), blanks()))
+        .prop_map(|(alts, ors, lead, trail)| RangeAst { alts, ors, lead: lead.to_string(), trail: trail.to_string() })
         .boxed()
 }
 
